@@ -22,6 +22,7 @@ class C02(WigBedProp):
             r = rng.fork(k)
             names, sizes, data, tags = bbgen.gen_bed_input(r)
             o = bbgen.gen_options(r, tier)
+            names = bbgen.free_chrom_order(r, names, o, tags)
             if r.chance(1, 12):
                 # a zero-length entry at position 0: the reader takes (0,0) for padding (D5)
                 nm = r.choice(names)
